@@ -131,6 +131,12 @@ def criteria_shared(prog, run):
 
 def check(prog, run):
     criteria_shared(prog, run)
+    # the matrices the realisation is given: exact poles at order 2m need the moment-matrix Hankel to hold one lag per block and the
+    # data-driven one to be the block of the LQ factor below the past rows (C12's structure rules, the two methods C01 speaks about)
+    run.rule("R-hankel", "build_hank, methods cov_mm and dat: block (i, c) holds lag i+c+1 with uniform weights, br+1 block rows / columns; dat: R factor of [past; future]^T, "
+             "returned block = rows below the past rows x columns of the past rows", 26)
+    from . import C12
+    C12.hankel_rules(prog, run.under({"R-lag": "R-hankel", "R-blocks": "R-hankel", "R-dat": "R-hankel"}, skip=lambda cfg: "cov_R" in (cfg or "")))
     run.rule("R-shift", "shift-invariance solve: up = O[:rows-w], down = O[w:] of one matrix, one shift w = channel count; A = pinv(up).down or inv(R).Q^T.down with QR of `up`; C = O[:w]", 15)
     run.rule("R-order-slot", "one truncation index per order; SSI_poles writes table column ii from AA[ii], CC[ii]", 6)
     run.rule("R-map", "ssi.ac2mp: lambda_c = log(lambda_d)/dt, fn = |lambda_c|/(2 pi), xi = -Re(lambda_c)/|lambda_c|", 3)
